@@ -328,3 +328,31 @@ def writer_summary(js: JobStates, tree: Tree, func) -> Tuple[Set[Tuple[str, str]
                         trans.add((a, b))
             sites.append((n, t, v, pre, vs))
     return trans, sites
+
+
+def lock_phase(tree: Tree, g: CFG, owner):
+    """Where `aio_start` takes the dependency locks: inline loop(s) over job.dependencies that
+    call `<dep>.lock().acquire()`, or (1-level helper) calls of a method of the same class whose
+    body does.  Returns (done_nodes, acquire_sites, helper) where done_nodes are CFG nodes of `g`
+    reached exactly when the phase has completed, acquire_sites are (func, call) pairs."""
+    from .astq import fn_calls
+
+    def is_acq(c):
+        return src(c).endswith(".lock().acquire()")
+
+    loops = [n for n in g.live if n.kind == "for" and any(is_acq(c) for s2 in n.ast.body for c in walk_local(s2) if isinstance(c, ast.Call))]
+    if loops:
+        done = [b for b in g.live if b.kind == "branch" and b.extra["test"] in loops and b.extra["polarity"] == "done"]
+        sites = [(owner, c) for lp in loops for s2 in lp.ast.body for c in walk_local(s2) if isinstance(c, ast.Call) and is_acq(c)]
+        return done, sites, None, loops
+    if owner.cls is None:
+        return [], [], None, []
+    for name, m in owner.cls.methods.items():
+        if m is owner:
+            continue
+        acq = [c for c in fn_calls(m.node) if is_acq(c)]
+        if acq:
+            calls = [n for n, c in g.call_nodes(lambda c, name=name: dotted(c.func) == f"self.{name}")]
+            if calls:
+                return calls, [(m, c) for c in acq], m, []
+    return [], [], None, []
